@@ -6,6 +6,7 @@ Sub-protocol `C09`: the border model against the beam-position spec.
   wait <n> | setclk <t>                  -> <frameClocks> <passedFrames>
   out <port> <val>                       -> <frameClocks> <passedFrames> <clock at which the ULA latched it | ->
   snap <colour>                          snapshot border: set_border_color(0, c)
+  snapszx <border> <fe>                  SZX SPCR chunk: write_io(0xFE, fe); set_border_color(frame_clocks, border)
   frame                                  -> <fnv of model border buffer> <spec verdict on it> <model reported colour> <spec reported colour | ->
   adj <runs>                             spec verdict on a buffer given as run-length list  n:code,n:code,...
   bpx <q>                                -> model border pixel at linear index q
@@ -108,6 +109,16 @@ def handle (s : St) : List String → St × String
     let c2 := s.c.writeIo port data
     let s3 := rotateIf { s2 with c := c2 } c1.passedFrames c2.passedFrames
     (s3, s!"{status c2} {latch}")
+  | ["snapszx", b, fe] =>
+    -- SZX SPCR chunk: OUT (0xFE),chFe through the port path, then the stored border at the current clock;
+    -- the frame is not adjudicated pixel by pixel, the reported colour is the stored border
+    -- restore_7ffd(0): the 128K is unlocked and paged back to its reset map first
+    let c0 := if s.c.machine == .k128 then ({ s.c with pagingEnabled := true }).write7ffd 0 else s.c
+    let c1 := c0.writeIo 0x00FE (bv8 fe)
+    let s1 := rotateIf { s with c := c1 } s.c.passedFrames c1.passedFrames
+    let col : BitVec 3 := BitVec.ofNat 3 (hexNatD b)
+    let c2 := c1.setBorderColor c1.frameClocks col
+    ({ s1 with c := c2, cur := (c1.frameClocks, col) :: s1.cur, curUnspec := true, reported := some col }, status c2)
   | ["snap", v] =>
     let col : BitVec 3 := BitVec.ofNat 3 (hexNatD v)
     let c := s.c.setBorderColor 0 col
